@@ -242,6 +242,18 @@ func WaitGone(gids []int64, limit time.Duration) bool {
 	}
 }
 
+// persistsInLock samples the goroutine's wait state a few more times: true only if it is waiting for a lock in all of them.
+func persistsInLock(gid int64) bool {
+	for i := 0; i < 4; i++ {
+		time.Sleep(150 * time.Microsecond)
+		st, ok := gstates()[gid]
+		if !ok || !lockState(st) {
+			return false
+		}
+	}
+	return true
+}
+
 func lockState(st string) bool {
 	switch st {
 	case "sync.Mutex.Lock", "sync.RWMutex.Lock", "sync.RWMutex.RLock", "semacquire":
@@ -297,8 +309,16 @@ func (s *Sched) await(t *thread) bool {
 			case settled:
 				return true
 			case ok && lockState(st):
+				// a lock that is merely contended for a moment (held by a RUNNING goroutine: the store's connection pool,
+				// the logger) is released within microseconds; only a wait that persists is a lock held by a parked thread
+				if !persistsInLock(t.gid) {
+					continue
+				}
 				s.mu.Lock()
-				t.blocked = true
+				settledNow := t.parked || t.done
+				if !settledNow {
+					t.blocked = true
+				}
 				s.mu.Unlock()
 				return true
 			case t.adopted && (!ok || !activeState(st)):
